@@ -5,6 +5,14 @@ What acceptance by the `verify` functions means (both directions).
 -/
 namespace HS
 
+/-! The guards of the `verify` functions come from the source (Generated/Guards.lean).  The proofs
+below need them in exactly these shapes; a guard that changes stops normalising here. -/
+theorem stakeGuard_eq (s : Nat) : (!decide (s > 0)) = (s == 0) := by cases s <;> simp
+theorem quorumGuard_eq (w q : Nat) : ((!decide (w ≥ q)) = true) = (w < q) := by
+  by_cases h : w < q
+  · simp [h]
+  · simp [h]
+
 theorem checkSigners_ok_iff (c : Committee) (l used : List Nat) (w w' : Nat) :
     checkSigners c l used w = .ok w' ↔
       (l.Nodup ∧ (∀ x ∈ l, x ∉ used) ∧ (∀ x ∈ l, c.stake x ≠ 0) ∧ w' = w + c.weight l) := by
@@ -12,6 +20,7 @@ theorem checkSigners_ok_iff (c : Committee) (l used : List Nat) (w w' : Nat) :
   | nil => simp [checkSigners, Committee.weight]; exact eq_comm
   | cons a l ih =>
     unfold checkSigners
+    simp only [Gen.certSignerStake, stakeGuard_eq]
     by_cases h1 : used.contains a = true
     · simp only [h1, if_true]
       constructor
@@ -71,7 +80,7 @@ theorem QC.verify_ok_iff (c : Committee) (q : QC) :
       rw [hcs] at this; cases this
   | ok w =>
     have hw := (checkSigners_ok_iff c q.signers [] 0 w).mp hcs
-    simp only
+    simp only [Gen.qcVerifyQuorum, quorumGuard_eq]
     by_cases hq : w < c.quorum
     · simp only [hq, if_true]
       constructor
@@ -106,7 +115,7 @@ theorem TC.verify_ok_iff (c : Committee) (t : TC) :
       rw [hcs] at this; cases this
   | ok w =>
     have hw := (checkSigners_ok_iff c t.signers [] 0 w).mp hcs
-    simp only
+    simp only [Gen.tcVerifyQuorum, quorumGuard_eq]
     by_cases hq : w < c.quorum
     · simp only [hq, if_true]
       constructor
@@ -128,6 +137,7 @@ theorem TC.verify_ok_iff (c : Committee) (t : TC) :
 theorem Vote.verify_ok_iff (c : Committee) (v : Vote) :
     v.verify c = .ok () ↔ (c.stake v.author ≠ 0 ∧ v.sig.valid v.content v.author = true) := by
   unfold Vote.verify
+  simp only [Gen.voteAuthorStake, stakeGuard_eq]
   by_cases h1 : (c.stake v.author == 0) = true
   · simp only [h1, if_true]
     simp at h1
@@ -145,6 +155,7 @@ theorem Timeout.verify_ok_iff (c : Committee) (t : Timeout) :
       (c.stake t.author ≠ 0 ∧ t.sig.valid t.content t.author = true ∧
         (t.highQC.isGenesis = true ∨ t.highQC.verify c = .ok ())) := by
   unfold Timeout.verify
+  simp only [Gen.timeoutAuthorStake, stakeGuard_eq]
   by_cases h1 : (c.stake t.author == 0) = true
   · simp only [h1, if_true]
     simp at h1
@@ -166,6 +177,7 @@ theorem Block.verify_ok_iff (c : Committee) (b : Block) :
         (b.qc.isGenesis = true ∨ b.qc.verify c = .ok ()) ∧
         ∀ tc, b.tc = some tc → tc.verify c = .ok ()) := by
   unfold Block.verify
+  simp only [Gen.blockAuthorStake, stakeGuard_eq]
   by_cases h1 : (c.stake b.author == 0) = true
   · simp only [h1, if_true]
     simp at h1
